@@ -41,7 +41,7 @@ structure SameShape (s s' : Style) : Prop where
 theorem xfMatches_shape {s s' : Style} (h : SameShape s s') (k : Int) (f l b : Option Nat) (xf : Xf) :
     xfMatches k f l b s' xf = xfMatches k f l b s xf := by
   unfold xfMatches xfNumFmt xfFont xfFill xfBorder xfAlignment xfProtection
-  rw [h.custom, h.negRed, h.dp, h.font, h.fill, h.border, h.alignment, h.protection]
+  rw [h.custom, h.font, h.fill, h.border, h.alignment, h.protection]
 
 /-! ### registry congruences -/
 
@@ -121,27 +121,6 @@ theorem findIdx?_append_left_some {α} (p : α → Bool) (l e : List α) {i : Na
       | none => rw [ht] at h; simp at h
       | some j => rw [ht] at h; rw [ih ht]; exact h
 
-/-! ### regular definitions: outside the classes that are open findings -/
-
-def dpOk (s : Style) : Bool := s.decimalPlaces == none || s.decimalPlaces == some 2
-
-/-- number-format part: NegRed / DecimalPlaces ≠ 2 only where no stored format is looked up
-(`idem:numfmt-negred-or-decimal`), and a currency format whose code is not in numFmts yet
-(`idem:currency-duplicate-code`) -/
-def numRegular (r : Reg) (s : Style) : Bool :=
-  match s.customNumFmt with
-  | some _ => !s.negRed && dpOk s
-  | none =>
-    if (builtIn s.numFmt).isSome || inRanges s.numFmt Facts.C17.getNumFmtRanges then !s.negRed && dpOk s
-    else match currency s.numFmt with
-      | some code => !s.negRed && dpOk s && ((numFmtList r).find? (·.code == code)).isNone
-      | none => true
-
-/-- a definition NewStyle deduplicates: number format as above, and a fill that is absent or of a
-known type (`idem:fill-unknown-type`) -/
-def Regular (r : Reg) (s : Style) : Bool :=
-  numRegular r s && (s.fill.typ == [] || (newFills s.fill).isSome)
-
 /-! ### number formats -/
 
 theorem dropPrefix?_some {p s rest : Str} (h : dropPrefix? p s = some rest) : s = p ++ rest := by
@@ -172,20 +151,6 @@ theorem replaceAll_self (p s : Str) : replaceAll p p s = s := by
   unfold replaceAll; split
   · rfl
   · exact replaceAllFuel_self _ _ _
-
-theorem currencyCode_regular {fc : Str} {s : Style} (hn : s.negRed = false) (hd : dpOk s = true) :
-    currencyCode fc s = fc := by
-  unfold currencyCode
-  simp only [hn, Bool.false_eq_true, if_false]
-  unfold dpOk at hd
-  cases hq : s.decimalPlaces with
-  | none => simp
-  | some d =>
-    rw [hq] at hd
-    simp at hd
-    subst hd
-    simp only [Option.isSome_some, if_true]
-    exact replaceAll_self _ _
 
 theorem currency_keys_large : ∀ p ∈ Facts.C17.currencyNumFmt, 164 ≤ p.1 := by decide +kernel
 
@@ -235,48 +200,36 @@ structure NumStep (r r1 : Reg) (s : Style) (n : Nat) : Prop where
   old : ∀ xf : Xf, (∀ k, xf.numFmtId = some k → k ≤ topId r) →
     xfNumFmt (numKey r1 s) xf s = true → xfNumFmt (numKey r s) xf s = true
 
-theorem xfNumFmt_hit_of_key {s : Style} {n : Nat} {xf : Xf} (hx : xf.numFmtId = some n)
-    (hn : s.negRed = false) (hd : dpOk s = true) :
+theorem xfNumFmt_hit_of_key {s : Style} {n : Nat} {xf : Xf} (hx : xf.numFmtId = some n) :
     xfNumFmt (n : Int) xf s = true := by
   have h1 : ¬ (s.customNumFmt.isNone = true ∧ (n : Int) = -1) := by omega
   have h3 : ¬ ((n : Int) < 0) := by omega
-  unfold dpOk at hd
   unfold xfNumFmt
-  rw [if_neg h1]
-  cases hq : s.decimalPlaces with
-  | none => simp only [hn, Bool.false_or, Bool.false_eq_true, if_false, h3, hx, Int.toNat_natCast]; simp
-  | some d =>
-    rw [hq] at hd; simp at hd; subst hd
-    simp only [hn, Bool.false_or, bne_self_eq_false, Bool.false_eq_true, if_false, h3, hx, Int.toNat_natCast]; simp
+  rw [if_neg h1, if_neg h3, hx]; simp
 
 theorem xfNumFmt_large_false {s : Style} {k : Int} {xf : Xf} {t : Nat} (hk : (t : Int) < k)
     (hx : ∀ m, xf.numFmtId = some m → m ≤ t) : xfNumFmt k xf s = false := by
   have h1 : ¬ (s.customNumFmt.isNone = true ∧ k = -1) := by omega
   have h3 : ¬ (k < 0) := by omega
-  have hne : (xf.numFmtId == some k.toNat) = false := by
-    cases hq : xf.numFmtId with
-    | none => simp
-    | some m => have := hx m hq; simp; omega
   unfold xfNumFmt
-  rw [if_neg h1, hne]
-  simp only [h3, if_false, ite_self]
+  rw [if_neg h1, if_neg h3]
+  cases hq : xf.numFmtId with
+  | none => simp
+  | some m => have := hx m hq; simp; omega
 
-theorem newNumFmt_step {r r1 : Reg} {s : Style} {n : Nat} (w : WF r) (reg : numRegular r s = true)
+theorem newNumFmt_step {r r1 : Reg} {s : Style} {n : Nat} (w : WF r)
     (h : newNumFmt r s = .ok (r1, n)) : NumStep r r1 s n := by
-  unfold numRegular at reg
   unfold newNumFmt at h
   cases hc : s.customNumFmt with
   | some c =>
-    rw [hc] at h reg
-    simp only [Bool.and_eq_true, Bool.not_eq_true'] at reg
-    obtain ⟨hn, hd⟩ := reg
+    rw [hc] at h
     simp only at h
     cases hg : getCustomNumFmtID r c with
     | some id =>
       rw [hg] at h
       injection h with h; injection h with h1 h2; subst h1; subst h2
       have hk : numKey r s = (id : Int) := by unfold numKey; rw [hc]; simp [hg]
-      exact ⟨rfl, rfl, rfl, rfl, fun xf hx => by rw [hk]; exact xfNumFmt_hit_of_key hx hn hd, fun _ _ h => h⟩
+      exact ⟨rfl, rfl, rfl, rfl, fun xf hx => by rw [hk]; exact xfNumFmt_hit_of_key hx, fun _ _ h => h⟩
     | none =>
       rw [hg] at h
       simp only [setCustomNumFmt] at h
@@ -296,27 +249,23 @@ theorem newNumFmt_step {r r1 : Reg} {s : Style} {n : Nat} (w : WF r) (reg : numR
         have := topId_le_foldMax w
         rw [← h2]; omega
       refine ⟨by rw [← h1], by rw [← h1], by rw [← h1], by rw [← h1],
-        fun xf hx => by rw [hk]; exact xfNumFmt_hit_of_key hx hn hd, fun xf hx hm => ?_⟩
+        fun xf hx => by rw [hk]; exact xfNumFmt_hit_of_key hx, fun xf hx hm => ?_⟩
       rw [hk, xfNumFmt_large_false htop hx] at hm
       exact absurd hm (by simp)
   | none =>
-    rw [hc] at h reg
-    simp only at h reg
+    rw [hc] at h
+    simp only at h
     by_cases hb : (builtIn s.numFmt).isSome = true
-    · simp only [hb, Bool.true_or, if_true, Bool.and_eq_true, Bool.not_eq_true'] at reg
-      obtain ⟨hn, hd⟩ := reg
-      simp only [hb, if_true] at h
+    · simp only [hb, if_true] at h
       injection h with h; injection h with h1 h2; subst h1; subst h2
       have hk : numKey r s = ((s.numFmt.toNat : Nat) : Int) := by
         unfold numKey getNumFmtID; rw [hc]; simp only [hb, if_true]
         have := builtIn_nonneg hb; omega
-      exact ⟨rfl, rfl, rfl, rfl, fun xf hx => by rw [hk]; exact xfNumFmt_hit_of_key hx hn hd, fun _ _ h => h⟩
+      exact ⟨rfl, rfl, rfl, rfl, fun xf hx => by rw [hk]; exact xfNumFmt_hit_of_key hx, fun _ _ h => h⟩
     · have hb' : (builtIn s.numFmt).isSome = false := by simpa using hb
       simp only [hb', Bool.false_eq_true, if_false] at h
       by_cases hr : inRanges s.numFmt Facts.C17.getNumFmtRanges = true
-      · simp only [hb', hr, Bool.or_true, if_true, Bool.and_eq_true, Bool.not_eq_true'] at reg
-        obtain ⟨hn, hd⟩ := reg
-        rw [currency_none_of_ranges hr] at h
+      · rw [currency_none_of_ranges hr] at h
         simp only at h
         rw [← ranges_eq_lang, hr] at h
         simp only [if_true] at h
@@ -324,9 +273,8 @@ theorem newNumFmt_step {r r1 : Reg} {s : Style} {n : Nat} (w : WF r) (reg : numR
         have hk : numKey r s = ((s.numFmt.toNat : Nat) : Int) := by
           unfold numKey getNumFmtID; rw [hc]; simp only [hb', Bool.false_eq_true, if_false, hr, if_true]
           have := ranges_nonneg hr; omega
-        exact ⟨rfl, rfl, rfl, rfl, fun xf hx => by rw [hk]; exact xfNumFmt_hit_of_key hx hn hd, fun _ _ h => h⟩
+        exact ⟨rfl, rfl, rfl, rfl, fun xf hx => by rw [hk]; exact xfNumFmt_hit_of_key hx, fun _ _ h => h⟩
       · have hr' : inRanges s.numFmt Facts.C17.getNumFmtRanges = false := by simpa using hr
-        simp only [hb', hr', Bool.or_false, Bool.false_eq_true, if_false] at reg
         cases hcur : currency s.numFmt with
         | none =>
           rw [hcur] at h
@@ -339,47 +287,62 @@ theorem newNumFmt_step {r r1 : Reg} {s : Style} {n : Nat} (w : WF r) (reg : numR
           refine ⟨rfl, rfl, rfl, rfl, fun xf hx => ?_, fun _ _ h => h⟩
           rw [hk]; unfold xfNumFmt; simp [hc, hx]
         | some fc =>
-          rw [hcur] at h reg
-          simp only [Bool.and_eq_true, Bool.not_eq_true', Option.isNone_iff_eq_none] at reg
-          obtain ⟨⟨hn, hd⟩, hfind⟩ := reg
+          rw [hcur] at h
           simp only at h
-          rw [currencyCode_regular hn hd] at h
-          have key1 : ∀ {r1 : Reg} {n : Nat}, numFmtList r1 = numFmtList r ++ [⟨n, fc⟩] → numKey r1 s = (n : Int) := by
-            intro r1 n hl
+          have keyOf : ∀ (r' : Reg), numKey r' s =
+              (match (numFmtList r').find? (·.code == currencyCode fc s) with
+               | some nf => (nf.id : Int) | none => Facts.C17.currencyUnregisteredId) := by
+            intro r'
             unfold numKey getNumFmtID; rw [hc]
             simp only [hb', Bool.false_eq_true, if_false, hr', hcur]
-            rw [hl, List.find?_append, hfind]; simp
+            cases List.find? (fun x => x.code == currencyCode fc s) (numFmtList r') <;> rfl
+          have key1 : ∀ {r1 : Reg} {n : Nat}, (numFmtList r).find? (·.code == currencyCode fc s) = none →
+              numFmtList r1 = numFmtList r ++ [⟨n, currencyCode fc s⟩] → numKey r1 s = (n : Int) := by
+            intro r1 n hfind hl
+            rw [keyOf, hl, List.find?_append, hfind]; simp
           cases hnf : r.numFmts with
           | none =>
             rw [hnf] at h
             simp only at h
             injection h with h; injection h with h1 h2
             have hl0 : numFmtList r = [] := by simp [numFmtList, hnf]
-            have hl : numFmtList r1 = numFmtList r ++ [⟨n, fc⟩] := by rw [← h1, ← h2, hl0]; simp [numFmtList]
+            have hl : numFmtList r1 = numFmtList r ++ [⟨n, currencyCode fc s⟩] := by
+              rw [← h1, ← h2, hl0]; simp [numFmtList]
+            have hfind : (numFmtList r).find? (·.code == currencyCode fc s) = none := by rw [hl0]; rfl
             have ht : topId r = 163 := by simp [topId, hl0]
             have htop : (topId r : Int) < (n : Int) := by rw [ht, ← h2]; omega
             refine ⟨by rw [← h1], by rw [← h1], by rw [← h1], by rw [← h1],
-              fun xf hx => by rw [key1 hl]; exact xfNumFmt_hit_of_key hx hn hd, fun xf hx hm => ?_⟩
-            rw [key1 hl, xfNumFmt_large_false htop hx] at hm
+              fun xf hx => by rw [key1 hfind hl]; exact xfNumFmt_hit_of_key hx, fun xf hx hm => ?_⟩
+            rw [key1 hfind hl, xfNumFmt_large_false htop hx] at hm
             exact absurd hm (by simp)
           | some p =>
             obtain ⟨l, cnt⟩ := p
             rw [hnf] at h
             simp only at h
-            cases hlast : l.getLast? with
-            | none => rw [hlast] at h; simp at h
-            | some last =>
-              rw [hlast] at h
-              simp only at h
-              injection h with h; injection h with h1 h2
-              have hl0 : numFmtList r = l := by simp [numFmtList, hnf]
-              have hl : numFmtList r1 = numFmtList r ++ [⟨n, fc⟩] := by rw [← h1, ← h2, hl0]; simp [numFmtList]
-              have ht : topId r = last.id := by simp [topId, hl0, hlast]
-              have htop : (topId r : Int) < (n : Int) := by rw [ht, ← h2]; omega
-              refine ⟨by rw [← h1], by rw [← h1], by rw [← h1], by rw [← h1],
-                fun xf hx => by rw [key1 hl]; exact xfNumFmt_hit_of_key hx hn hd, fun xf hx hm => ?_⟩
-              rw [key1 hl, xfNumFmt_large_false htop hx] at hm
-              exact absurd hm (by simp)
+            have hl0 : numFmtList r = l := by simp [numFmtList, hnf]
+            cases hf : l.find? (·.code == currencyCode fc s) with
+            | some nf =>
+              rw [hf] at h; simp only at h
+              injection h with h; injection h with h1 h2; subst h1; subst h2
+              have hk : numKey r s = (nf.id : Int) := by rw [keyOf, hl0, hf]
+              exact ⟨rfl, rfl, rfl, rfl, fun xf hx => by rw [hk]; exact xfNumFmt_hit_of_key hx, fun _ _ h => h⟩
+            | none =>
+              rw [hf] at h
+              cases hlast : l.getLast? with
+              | none => rw [hlast] at h; simp at h
+              | some last =>
+                rw [hlast] at h
+                simp only at h
+                injection h with h; injection h with h1 h2
+                have hl : numFmtList r1 = numFmtList r ++ [⟨n, currencyCode fc s⟩] := by
+                  rw [← h1, ← h2, hl0]; simp [numFmtList]
+                have hfind : (numFmtList r).find? (·.code == currencyCode fc s) = none := by rw [hl0]; exact hf
+                have ht : topId r = last.id := by simp [topId, hl0, hlast]
+                have htop : (topId r : Int) < (n : Int) := by rw [ht, ← h2]; omega
+                refine ⟨by rw [← h1], by rw [← h1], by rw [← h1], by rw [← h1],
+                  fun xf hx => by rw [key1 hfind hl]; exact xfNumFmt_hit_of_key hx, fun xf hx hm => ?_⟩
+                rw [key1 hfind hl, xfNumFmt_large_false htop hx] at hm
+                exact absurd hm (by simp)
 
 /-! ### fonts, borders, fills -/
 
@@ -468,7 +431,7 @@ theorem newFills_nil {fl : Fill} (h : fl.typ = []) : newFills fl = none := by
 theorem addFill_step {r : Reg} (s : Style) (w : WF r) :
     (addFill r s).1.numFmts = r.numFmts ∧ (addFill r s).1.borders = r.borders ∧
     (addFill r s).1.fonts = r.fonts ∧ (addFill r s).1.xfs = r.xfs ∧
-    (∃ e, (addFill r s).1.fills = r.fills ++ e) ∧ (s.fill.typ = [] → (addFill r s).2 = 0) ∧
+    (∃ e, (addFill r s).1.fills = r.fills ++ e) ∧ (newFills s.fill = none → (addFill r s).2 = 0) ∧
     (s.fill.typ ≠ [] → (newFills s.fill).isSome = true →
       CompStep (getFillID r s) (getFillID (addFill r s).1 s) (addFill r s).2 r.fills.length) := by
   cases hq : getFillID r s with
@@ -476,7 +439,9 @@ theorem addFill_step {r : Reg} (s : Style) (w : WF r) :
     have he : addFill r s = (r, j) := by unfold addFill; rw [hq]
     rw [he]
     refine ⟨rfl, rfl, rfl, rfl, ⟨[], by simp⟩, fun hb => ?_, fun _ _ => ⟨hq, Or.inl rfl⟩⟩
-    unfold getFillID at hq; simp [hb] at hq
+    unfold getFillID at hq; split at hq
+    · cases hq
+    · rw [hb] at hq; cases hq
   | none =>
     cases hn : newFills s.fill with
     | none =>
@@ -488,7 +453,7 @@ theorem addFill_step {r : Reg} (s : Style) (w : WF r) :
         unfold addFill; rw [hq, hn]
       rw [he]
       refine ⟨rfl, rfl, rfl, rfl, ⟨[x], rfl⟩, fun h => ?_, fun ht _ => ?_⟩
-      · rw [newFills_nil h] at hn; cases hn
+      · cases h
       · unfold getFillID at hq ⊢
         simp only [ht, if_false, hn] at hq ⊢
         have := lookup_snoc_step (· == x) r.fills x (by simp) hq
@@ -497,10 +462,7 @@ theorem addFill_step {r : Reg} (s : Style) (w : WF r) :
 /-! ### shape lemmas -/
 
 theorem numKey_shape {s s' : Style} (h : SameShape s s') (r : Reg) : numKey r s' = numKey r s := by
-  unfold numKey getNumFmtID; rw [h.custom, h.numFmt]
-
-theorem Regular_shape {s s' : Style} (h : SameShape s s') (r : Reg) : Regular r s' = Regular r s := by
-  unfold Regular numRegular dpOk; rw [h.custom, h.numFmt, h.negRed, h.dp, h.fill]
+  unfold numKey getNumFmtID currencyCode; rw [h.custom, h.numFmt, h.dp, h.negRed]
 
 theorem getBorderID_congr {r r' : Reg} {s s' : Style} (hr : r'.borders = r.borders) (hs : s'.border = s.border) :
     getBorderID r' s' = getBorderID r s := by
@@ -578,7 +540,7 @@ theorem xfFont_eq (k : Option Nat) (xf : Xf) (s : Style) :
   unfold xfFont compMatch; cases k <;> rfl
 
 theorem xfFill_eq (k : Option Nat) (xf : Xf) (s : Style) :
-    xfFill k xf s = if s.fill.typ = [] then zeroOrAbsent xf.fillId && offOrAbsent xf.applyFill
+    xfFill k xf s = if (newFills s.fill).isNone then zeroOrAbsent xf.fillId && offOrAbsent xf.applyFill
       else compMatch k xf.fillId xf.applyFill := by
   unfold xfFill compMatch; cases k <;> rfl
 
@@ -599,7 +561,7 @@ theorem xfMatches_and (k : Int) (f l b : Option Nat) (s : Style) (xf : Xf) :
       xfAlignment xf s && xfProtection xf s) := rfl
 
 /-- after a regular definition has been created, its lookup on the new registry finds the new id -/
-theorem found_after_create {r r5 : Reg} {t t0 t' : Style} {id : Nat} (w : WF r) (reg : Regular r t = true)
+theorem found_after_create {r r5 : Reg} {t t0 t' : Style} {id : Nat} (w : WF r)
     (h0 : getStyleID r t = .ok (none, t0)) (hc : createStyle r t0 = .ok (r5, id, t')) :
     ∃ t'', getStyleID r5 t = .ok (some id, t'') ∧ SameShape t t'' := by
   have hne : r.fonts ≠ [] := by
@@ -628,7 +590,6 @@ theorem found_after_create {r r5 : Reg} {t t0 t' : Style} {id : Nat} (w : WF r) 
         refine ⟨⟨rfl, rfl, rfl, by simp [hf], rfl, rfl, rfl, rfl, rfl⟩, (fun h => by cases h), fun f' hf' => ?_⟩
         cases hf'; exact ⟨rfl, hg1.symm⟩
     obtain ⟨sh0, hfn, hfs⟩ := sh0
-    have reg0 : Regular r tt = true := by rw [Regular_shape sh0]; exact reg
     -- the steps of createStyle
     unfold createStyle at hc
     split at hc
@@ -644,11 +605,7 @@ theorem found_after_create {r r5 : Reg} {t t0 t' : Style} {id : Nat} (w : WF r) 
     simp at hc
     obtain ⟨hr, hi, _⟩ := hc
     subst hr; subst hi
-    have regn : numRegular r tt = true := by
-      unfold Regular at reg0; simp only [Bool.and_eq_true] at reg0; exact reg0.1
-    have regf : tt.fill.typ = [] ∨ (newFills tt.fill).isSome = true := by
-      unfold Regular at reg0; simp only [Bool.and_eq_true, Bool.or_eq_true, beq_iff_eq] at reg0; exact reg0.2
-    have NS := newNumFmt_step w regn h1
+    have NS := newNumFmt_step w h1
     have w1 := (newNumFmt_spec w h1).2.1
     have FS := addFont_step w1 h2
     have w2 := (addFont_spec w1 h2).2.1
@@ -724,7 +681,7 @@ theorem found_after_create {r r5 : Reg} {t t0 t' : Style} {id : Nat} (w : WF r) 
         obtain ⟨⟨⟨⟨⟨m1, m2⟩, m3⟩, m4⟩, m5⟩, m6⟩ := hm
         have o1 : xfNumFmt (numKey r t) xf t2 = true := by
           have e1 : ∀ k, xfNumFmt k xf t2 = xfNumFmt k xf tt := fun k => by
-            unfold xfNumFmt; rw [sh2.custom, sh2.negRed, sh2.dp]
+            unfold xfNumFmt; rw [sh2.custom]
           rw [e1, ← numKey_shape sh0]
           rw [e1, kn] at m1
           exact NS.old xf ok.num m1
@@ -738,14 +695,15 @@ theorem found_after_create {r r5 : Reg} {t t0 t' : Style} {id : Nat} (w : WF r) 
             exact comp_old (hcs this) ok.font m2
         have o3 : xfFill (getFillID r t) xf t2 = true := by
           rw [xfFill_eq] at m3 ⊢
-          by_cases hz : t2.fill.typ = []
+          by_cases hz : (newFills t2.fill).isNone = true
           · simp only [hz, if_true] at m3 ⊢; exact m3
           · simp only [hz, if_false] at m3 ⊢
             have hsome : (newFills t2.fill).isSome = true := by
-              rcases regf with h | h
-              · rw [← sh2.fill] at h; exact absurd h hz
-              · rw [← sh2.fill] at h; exact h
-            have cs := l_some hz hsome
+              cases hq : newFills t2.fill with
+              | none => rw [hq] at hz; simp at hz
+              | some x => rfl
+            have htyp : t2.fill.typ ≠ [] := fun hh => by rw [newFills_nil hh] at hsome; simp at hsome
+            have cs := l_some htyp hsome
             rw [← kl, ← kl0] at cs
             have hlen : (addBorder r2 t2).1.fills.length = r.fills.length := by rw [b_fills, f_fills, NS.fills]
             rw [hlen] at cs
@@ -769,7 +727,7 @@ theorem found_after_create {r r5 : Reg} {t t0 t' : Style} {id : Nat} (w : WF r) 
       rw [shP, xfMatches_and]
       have n1 : xfNumFmt (numKey r5' t) (mkXf i n (addFill (addBorder r2 t2).1 t2).2 (addBorder r2 t2).2 t2) t2 = true := by
         have e1 : ∀ k xf, xfNumFmt k xf t2 = xfNumFmt k xf tt := fun k xf => by
-          unfold xfNumFmt; rw [sh2.custom, sh2.negRed, sh2.dp]
+          unfold xfNumFmt; rw [sh2.custom]
         rw [e1, kn]
         exact NS.hit _ rfl
       have n2 : xfFont k1f (mkXf i n (addFill (addBorder r2 t2).1 t2).2 (addBorder r2 t2).2 t2) t2 = true := by
@@ -786,14 +744,19 @@ theorem found_after_create {r r5 : Reg} {t t0 t' : Style} {id : Nat} (w : WF r) 
           exact compMatch_mk i
       have n3 : xfFill (getFillID r5' t) (mkXf i n (addFill (addBorder r2 t2).1 t2).2 (addBorder r2 t2).2 t2) t2 = true := by
         rw [xfFill_eq]
-        by_cases hz : t2.fill.typ = []
-        · simp [hz, mkXf, zeroOrAbsent, offOrAbsent, l_nil hz]
+        by_cases hz : (newFills t2.fill).isNone = true
+        · have hnone : newFills t2.fill = none := by
+            cases hq : newFills t2.fill with
+            | none => rfl
+            | some x => rw [hq] at hz; simp at hz
+          simp [hz, mkXf, zeroOrAbsent, offOrAbsent, l_nil hnone]
         · have hsome : (newFills t2.fill).isSome = true := by
-            rcases regf with h | h
-            · rw [← sh2.fill] at h; exact absurd h hz
-            · rw [← sh2.fill] at h; exact h
+            cases hq : newFills t2.fill with
+            | none => rw [hq] at hz; simp at hz
+            | some x => rfl
+          have htyp : t2.fill.typ ≠ [] := fun hh => by rw [newFills_nil hh] at hsome; simp at hsome
           simp only [hz, if_false]
-          rw [kl, (l_some hz hsome).1]
+          rw [kl, (l_some htyp hsome).1]
           exact compMatch_mk _
       have n4 : xfBorder (getBorderID r5' t) (mkXf i n (addFill (addBorder r2 t2).1 t2).2 (addBorder r2 t2).2 t2) t2 = true := by
         rw [xfBorder_eq]
